@@ -21,6 +21,7 @@ type CPStmt struct {
 	Site   int      `json:"site,omitempty"`
 	Target int      `json:"target,omitempty"` // callee function index
 	N      int      `json:"n,omitempty"`      // loop count
+	Pad    int      `json:"pad,omitempty"`    // extra leading spaces (long lines: columns beyond 255)
 	Body   []CPStmt `json:"body,omitempty"`
 	Else   []CPStmt `json:"else,omitempty"`
 	Third  []CPStmt `json:"third,omitempty"`
@@ -41,13 +42,15 @@ type CPPlan struct {
 	Rich        bool     `json:"rich_fs,omitempty"`
 }
 
-var cpSiteKinds = []string{"idx-slice", "idx-string", "slice-bounds", "div", "mod", "nil-set", "nil-get", "nil-method", "nil-map", "nil-func", "panic", "native", "for-cond"}
+var cpSiteKinds = []string{"local-div", "idx-slice", "idx-string", "slice-bounds", "div", "mod", "nil-set", "nil-get", "nil-method", "nil-map", "nil-func", "panic", "native", "for-cond"}
 
 type cpSite struct {
 	Func int
 	Line int
 	Kind string
 	Ctx  string // enclosing constructs: l(oop) i(f) s(witch)
+	Col  int    // column of the statement's first character
+	Lam  bool   // a function literal precedes it in the same function
 }
 
 type cpRendered struct {
@@ -123,15 +126,17 @@ func cpRender(p *CPPlan) *cpRendered {
 	ctxOf := func(ind string) string { return strings.ReplaceAll(ind, "\t", "") }
 	_ = ctxOf
 	ctx := ""
+	lamSeen := false
 	stmts = func(fi int, ss []CPStmt, ind string) {
 		for _, s := range ss {
+			ind := ind + strings.Repeat(" ", s.Pad)
 			site := func(text string) {
 				l := emit(ind + text)
 				kind := s.Kind
 				if kind == "mlcall" {
 					kind = "idx-in-multiline-call"
 				}
-				r.Sites[s.Site] = cpSite{Func: fi, Line: l, Kind: kind, Ctx: ctx}
+				r.Sites[s.Site] = cpSite{Func: fi, Line: l, Kind: kind, Ctx: ctx, Col: len(ind), Lam: lamSeen}
 			}
 			id := s.Site
 			switch s.Kind {
@@ -145,6 +150,16 @@ func cpRender(p *CPPlan) *cpRendered {
 				site(fmt.Sprintf("r = r + 100 / host.Den(%d)", id))
 			case "mod":
 				site(fmt.Sprintf("r = r + 100 %% host.Den(%d)", id))
+			case "local-div":
+				// both operands plain locals: the optimizer fuses LOCALGET LOCALGET DIV
+				emit(ind + fmt.Sprintf("w%d := 100", id))
+				emit(ind + fmt.Sprintf("z%d := host.Den(%d)", id, id))
+				site(fmt.Sprintf("r = r + w%d / z%d", id, id))
+			case "lambda":
+				// a function literal inside the function: later statements still belong to the function
+				lamSeen = true
+				emit(ind + fmt.Sprintf("lam%d := func(a int) int { return a + %d }", s.N, s.N))
+				emit(ind + fmt.Sprintf("r = r + lam%d(1) - %d", s.N, s.N+1))
 			case "nil-set":
 				site(fmt.Sprintf("selT(host.Flag(%d)).A = 7", id))
 			case "nil-get":
@@ -242,6 +257,7 @@ func cpRender(p *CPPlan) *cpRendered {
 		} else {
 			emit(fmt.Sprintf("func f%d(d int) int {", i))
 		}
+		lamSeen = false
 		emit(fmt.Sprintf("\thost.Enter(%d)", i))
 		emit("\tr := 0")
 		stmts(i, f.Stmts, "\t")
@@ -276,7 +292,7 @@ func (crashpoint) Describe() core.EngineInfo {
 		Real:       []string{"goatlang compiler positions (newPos, peephole fusion), VM backtrace (mkFunc push/pop), error builder (btErr), via Load/Call/Eval"},
 		Stubs:      []string{"host.Idx/Den/Flag/Fail natives decide the fault instant; host.Enter/Leave/At keep the shadow stack", "SimDisk serves the program"},
 		Assumes:    []string{"one statement per line; call statements carry their own line number as an argument of host.At", "chains that cross a native re-entry (sort comparators) are not generated", "the activation entered by Call has no call-site line (position zero is skipped by the error builder)"},
-		ProbesWant: []string{"fault:idx-slice", "fault:idx-string", "fault:slice-bounds", "fault:div", "fault:mod", "fault:nil-set", "fault:nil-get", "fault:nil-method", "fault:nil-map", "fault:nil-func", "fault:panic", "fault:native", "fault:for-cond", "fault:idx-in-multiline-call", "multiline_call_active", "depth_10plus", "depth_20plus", "in_method", "in_loop", "in_switch", "entry_eval", "optimizer_off"},
+		ProbesWant: []string{"fault:local-div", "long_line", "after_lambda", "fault:idx-slice", "fault:idx-string", "fault:slice-bounds", "fault:div", "fault:mod", "fault:nil-set", "fault:nil-get", "fault:nil-method", "fault:nil-map", "fault:nil-func", "fault:panic", "fault:native", "fault:for-cond", "fault:idx-in-multiline-call", "multiline_call_active", "depth_10plus", "depth_20plus", "in_method", "in_loop", "in_switch", "entry_eval", "optimizer_off"},
 	}
 }
 
@@ -307,6 +323,18 @@ func (g *cpGen) block(fi, n, depth int) []CPStmt {
 }
 
 func (g *cpGen) stmt(fi, depth int) CPStmt {
+	st := g.stmt0(fi, depth)
+	if g.r.Chance(1, 12) {
+		st.Pad = 200 + g.r.Intn(400)
+	}
+	return st
+}
+
+func (g *cpGen) stmt0(fi, depth int) CPStmt {
+	if g.r.Chance(1, 12) {
+		g.nextID++
+		return CPStmt{Kind: "lambda", N: g.nextID}
+	}
 	k := g.r.Intn(20)
 	switch {
 	case k < 8 || depth >= 2:
@@ -510,6 +538,12 @@ func (crashpoint) Execute(plan any, keep bool) *core.Result {
 	}
 	if strings.Contains(site.Ctx, "l") {
 		res.Counters.Inc("in_loop")
+	}
+	if site.Col >= 256 {
+		res.Counters.Inc("long_line")
+	}
+	if site.Lam {
+		res.Counters.Inc("after_lambda")
 	}
 	if strings.Contains(site.Ctx, "s") {
 		res.Counters.Inc("in_switch")
